@@ -14,7 +14,7 @@ BUDGET = {'quick': 40, 'thorough': 900}
 PROBES = ['decoded_images', 'api_vs_decoder_compared', 'dir_multi_sector', 'path_table_gt_2048', 'dup_pvd_decoded', 'xa_decoded', 'enhanced_decoded']
 ASSUMPTIONS = ['isosim/dec_iso.py implements ECMA-119 as written down in DESIGN.md Appendix A (self-tested on hand-assembled sectors)']
 
-PROFILE = H.Profile('c03', nops=(3, 24), weights={'dup_pvd': 2, 'add_dir': 22, 'mass_dirs': 2}, final_restart=True)
+PROFILE = H.Profile('c03', nops=(3, 24), weights={'dup_pvd': 2, 'add_dir': 22, 'mass_dirs': 2, 'ptr_cycle': 0.4}, final_restart=True)
 
 
 class C03(H.Oracle):
